@@ -197,8 +197,8 @@ func (w *world) revisable(ci int) bool {
 // doTwin builds a second complete host node that holds the same contracts (same formation sets, same revisions,
 // same sector data) but is fed only the blocks of the final best chain, through the real index sync, and reports its
 // contract views next to the living node's (C01: contract chain state is a function of the best chain).
-func (w *world) doTwin(tr *vhlib.Trace, batch int) {
-	op := fmt.Sprintf("twin batch=%d", batch)
+func (w *world) doTwin(tr *vhlib.Trace, batch int, catchup bool) {
+	op := fmt.Sprintf("twin batch=%d catchup=%d", batch, vhlib.B01(catchup))
 	if w.dead {
 		return
 	}
@@ -241,18 +241,33 @@ func (w *world) doTwin(tr *vhlib.Trace, batch int) {
 		tr.Line(op, "res=harnesserr:twin_"+addErr)
 		return
 	}
+	// block by block (the twin is never behind its chain manager: its own lifecycle broadcasts are made at the
+	// tip; `catchup` feeds the whole chain first, as a node that was offline would see it)
+	res := tn.sync()
 	var blocks []types.Block
 	for h := uint64(1); h <= cm.Tip().Height; h++ {
 		bi, _ := cm.BestIndex(h)
 		b, _ := cm.Block(bi.ID)
 		blocks = append(blocks, b)
 	}
-	if len(blocks) > 0 {
-		if err := tn.cm.AddBlocks(blocks); err != nil {
-			w.t.Fatal("twin node:", err)
+	if catchup {
+		if len(blocks) > 0 {
+			if err := tn.cm.AddBlocks(blocks); err != nil {
+				w.t.Fatal("twin node:", err)
+			}
+		}
+		res = tn.sync()
+	} else {
+		for _, b := range blocks {
+			if res != "ok" {
+				break
+			}
+			if err := tn.cm.AddBlocks([]types.Block{b}); err != nil {
+				w.t.Fatal("twin node:", err)
+			}
+			res = tn.sync()
 		}
 	}
-	res := tn.sync()
 	if res != "ok" {
 		// the twin processes a plain forward chain: a failure here is a finding of its own
 		tr.Count("twin:syncfail")
@@ -286,9 +301,9 @@ func (w *world) doEndCheck(tr *vhlib.Trace) {
 		if last == "" {
 			last = "none"
 		}
-		// i:status:v1:sectors:stable:expired:refused:revisionConfirmed:fundFailures:lastRejection
-		out = append(out, fmt.Sprintf("%d:%s:%d:%d:%d:%d:%d:%d:%d:%s", i, st, vhlib.B01(c.v1), len(c.seeds), vhlib.B01(!c.unstable && c.formed),
-			vhlib.B01(tipH > c.exp+1), w.refused[i], rc, w.fundFail[i], last))
+		// i:status:v1:sectors:stable:expired:refused:revisionConfirmed:fundFailures:lastRejection:tipRefusedFreshAccepts:tipRefusedFreshRefuses:refusedDuringCatchup
+		out = append(out, fmt.Sprintf("%d:%s:%d:%d:%d:%d:%d:%d:%d:%s:%d:%d:%d", i, st, vhlib.B01(c.v1), len(c.seeds), vhlib.B01(!c.unstable && c.formed),
+			vhlib.B01(tipH > c.exp+1), w.refused[i], rc, w.fundFail[i], last, w.freshOK[i], w.freshRej[i], w.midRef[i]))
 		if !c.v1 && len(c.seeds) > 0 && !c.unstable && c.formed && tipH > c.exp+1 {
 			tr.Count("endcheck:data_contract:" + st)
 		}
@@ -351,8 +366,10 @@ func genContracts(t *testing.T, tr *vhlib.Trace, r *vhlib.Rand, n int) {
 			} else if lim := w.safeDepth(); depth > lim {
 				depth = lim // keep every formation on the best chain
 			}
-			if depth >= 1 {
+			if depth >= 1 && w.windowReorgOK(deep) {
 				w.doReorg(tr, depth, depth+1+r.Intn(2), "void", r.Chance(2, 3))
+				// liveness hypothesis of C06: after a reorg the next block is mined from the host's pool
+				w.doMine(tr, 1, "host", true)
 			} else {
 				w.doMine(tr, 1, "void", true)
 			}
@@ -365,11 +382,12 @@ func genContracts(t *testing.T, tr *vhlib.Trace, r *vhlib.Rand, n int) {
 	for guard := 0; guard < 60 && !w.dead && w.host.cm.Tip().Height <= maxExp()+2; guard++ {
 		if reorgs < 8 && r.Chance(1, 6) {
 			reorgs++
-			if d := w.safeDepth(); d >= 1 {
+			if d := w.safeDepth(); d >= 1 && w.windowReorgOK(false) {
 				if d > 3 {
 					d = 1 + r.Intn(3)
 				}
 				w.doReorg(tr, d, d+1, "void", r.Chance(2, 3))
+				w.doMine(tr, 1, "host", true)
 				continue
 			}
 		}
@@ -377,8 +395,39 @@ func genContracts(t *testing.T, tr *vhlib.Trace, r *vhlib.Rand, n int) {
 	}
 	w.doMine(tr, 2, "host", true)
 	w.doEndCheck(tr)
-	w.doTwin(tr, vhlib.Pick(r, 1, 100))
+	w.doTwin(tr, vhlib.Pick(r, 1, 100), false)
 }
+
+// windowReorgOK limits the reorgs that hit an open proof window of a data contract to two per contract (each is
+// followed by a block mined from the host's pool): C06's "ends successful" presupposes that the host's proof gets a
+// chance to be mined before the window closes; a fork miner that keeps replacing the proof's block is outside it.
+func (w *world) windowReorgOK(deep bool) bool {
+	if deep {
+		return true
+	}
+	tipH := w.host.cm.Tip().Height
+	ok := true
+	for _, c := range w.cons {
+		if c.v1 || len(c.seeds) == 0 || c.resolvedFinal(tipH) {
+			continue
+		}
+		if tipH+1 >= c.fc.ProofHeight && tipH <= c.exp {
+			if c.windowReorgs >= 2 {
+				ok = false
+			}
+		}
+	}
+	if ok {
+		for _, c := range w.cons {
+			if !c.v1 && len(c.seeds) > 0 && tipH+1 >= c.fc.ProofHeight && tipH <= c.exp {
+				c.windowReorgs++
+			}
+		}
+	}
+	return ok
+}
+
+func (c *contractInfo) resolvedFinal(tipH uint64) bool { return tipH > c.exp+4 }
 
 // safeDepth is the deepest reorg that leaves every confirmed formation on the best chain.
 func (w *world) safeDepth() int {
